@@ -264,6 +264,9 @@ Error String::_op_string(ModifyOp op, const char* str, size_t size) noexcept {
   }
 
   if (!size) {
+    if (op == ModifyOp::kAssign) {
+      (void)clear();
+    }
     return Error::kOk;
   }
 
@@ -288,6 +291,9 @@ Error String::_op_char(ModifyOp op, char c) noexcept {
 
 Error String::_op_chars(ModifyOp op, char c, size_t n) noexcept {
   if (!n) {
+    if (op == ModifyOp::kAssign) {
+      (void)clear();
+    }
     return Error::kOk;
   }
 
@@ -427,6 +433,9 @@ Error String::_op_hex(ModifyOp op, const void* data, size_t size, char separator
   const uint8_t* src = static_cast<const uint8_t*>(data);
 
   if (!size) {
+    if (op == ModifyOp::kAssign) {
+      (void)clear();
+    }
     return Error::kOk;
   }
 
@@ -500,7 +509,7 @@ Error String::_op_vformat(ModifyOp op, const char* fmt, va_list ap) noexcept {
     fmt_result = vsnprintf(data() + start_at, remaining_capacity, fmt, ap);
     output_size = size_t(fmt_result);
 
-    if (ASMJIT_LIKELY(output_size <= remaining_capacity)) {
+    if (ASMJIT_LIKELY(output_size < remaining_capacity)) {
       _set_size(start_at + output_size);
       return Error::kOk;
     }
